@@ -41,6 +41,7 @@ import os
 import string
 
 MODULE = 'TxdbusModel.Gen.Dispatch'
+ADVISORIES = []
 
 
 class TranslatorError(Exception):
@@ -424,29 +425,28 @@ class _Conn:
 
 def _call(handler, path, member, iface=None, sig=None, body=None, expect=True, sender=MK_SENDER):
     """Send one call (real bytes, parsed back); returns (replies as parsed from the wire, exception escaping)."""
-    from txdbus import message
-    m = message.MethodCallMessage(path, member, interface=iface, destination=':1.1', signature=sig,
-                                  body=body if sig else None, expectReply=expect)
-    m.serial = 4242
-    if sender is not None:
-        m.sender = sender
-    m._marshal(newSerial=False)
-    msg = message.parseMessage(m.rawMessage, [])
-    handler.conn.sent.clear()
+    from txdbus import marshal, message
+    from harness import c10_locate as L
+    raw = L.call_bytes(message, marshal, path, member, iface=iface, destination=':1.1', sender=sender,
+                       signature=sig, body=body, expect_reply=expect, serial=4242, notes=ADVISORIES)
+    msg = message.parseMessage(raw, [])
+    handler.probe_conn.sent.clear()
     try:
         handler.handleMethodCallMessage(msg)
         exc = None
     except Exception as e:      # noqa
         exc = e
-    return list(handler.conn.sent), exc
+    return list(handler.probe_conn.sent), exc
 
 
 def _mk_handler(objs):
     from txdbus import objects
-    h = objects.DBusObjectHandler(_Conn())
+    conn = _Conn()
+    h = objects.DBusObjectHandler(conn)
+    h.probe_conn = conn
     for o in objs:
         h.exportObject(o)
-    h.conn.sent.clear()
+    conn.sent.clear()
     return h
 
 
@@ -678,7 +678,8 @@ def probe_tables(repo):
         pass
     from txdbus import message
     try:
-        message.MethodReturnMessage(1, body=[hp.getManagedObjects(MK_PATH)], destination=':1.1',
+        from harness import c10_locate as L
+        message.MethodReturnMessage(1, body=[L.managed_objects(hp, MK_PATH, ADVISORIES)], destination=':1.1',
                                     signature=builtin['managed'][1])
         raise TranslatorError('probe: a None property value no longer makes the GetManagedObjects reply fail')
     except TranslatorError:
@@ -777,8 +778,6 @@ def _norm_pieces(ps):
         out.append(tuple(p))
     return out
 
-
-ADVISORIES = []
 
 
 def ast_tables(repo):
